@@ -914,9 +914,23 @@ int ICACHE_FLASH_ATTR supla_esp_mqtt_parse_int_with_prefix(
         return 0;
       }
 
+      // the channel number is a plain decimal number not greater than 255
+      for (size_t b = 0; b < a; b++) {
+        if ((*topic_name)[b] < '0' || (*topic_name)[b] > '9') {
+          return 0;
+        }
+      }
+
+      if (a > 9) {
+        return 0;
+      }
+
       int result = supla_esp_mqtt_str2int(*topic_name, a, err);
 
-      if (err && *err) {
+      if ((err && *err) || result > 255) {
+        if (err) {
+          *err = 1;
+        }
         return 0;
       }
 
@@ -961,7 +975,8 @@ uint8 ICACHE_FLASH_ATTR supla_esp_mqtt_parser_set_on(
   char *tn = (char *)topic_name;
 
   if (memcmp(tn, supla_esp_mqtt_vars->prefix,
-             supla_esp_mqtt_vars->prefix_len) == 0) {
+             supla_esp_mqtt_vars->prefix_len) == 0 &&
+      tn[supla_esp_mqtt_vars->prefix_len] == '/') {
     tn += supla_esp_mqtt_vars->prefix_len + 1;
     topic_name_size -= supla_esp_mqtt_vars->prefix_len + 1;
   } else {
@@ -1884,7 +1899,8 @@ uint8 ICACHE_FLASH_ATTR supla_esp_mqtt_parser_rs_fb_action(
   char *tn = (char *)topic_name;
 
   if (memcmp(tn, supla_esp_mqtt_vars->prefix,
-             supla_esp_mqtt_vars->prefix_len) == 0) {
+             supla_esp_mqtt_vars->prefix_len) == 0 &&
+      tn[supla_esp_mqtt_vars->prefix_len] == '/') {
     tn += supla_esp_mqtt_vars->prefix_len + 1;
     topic_name_size -= supla_esp_mqtt_vars->prefix_len + 1;
   } else {
@@ -2057,7 +2073,8 @@ uint8 ICACHE_FLASH_ATTR supla_esp_mqtt_parser_set_brightness(
   char *tn = (char *)topic_name;
 
   if (memcmp(tn, supla_esp_mqtt_vars->prefix,
-             supla_esp_mqtt_vars->prefix_len) == 0) {
+             supla_esp_mqtt_vars->prefix_len) == 0 &&
+      tn[supla_esp_mqtt_vars->prefix_len] == '/') {
     tn += supla_esp_mqtt_vars->prefix_len + 1;
     topic_name_size -= supla_esp_mqtt_vars->prefix_len + 1;
   } else {
@@ -2532,7 +2549,8 @@ uint8 ICACHE_FLASH_ATTR supla_esp_mqtt_parser_set_color_brightness(
   char *tn = (char *)topic_name;
 
   if (memcmp(tn, supla_esp_mqtt_vars->prefix,
-             supla_esp_mqtt_vars->prefix_len) == 0) {
+             supla_esp_mqtt_vars->prefix_len) == 0 &&
+      tn[supla_esp_mqtt_vars->prefix_len] == '/') {
     tn += supla_esp_mqtt_vars->prefix_len + 1;
     topic_name_size -= supla_esp_mqtt_vars->prefix_len + 1;
   } else {
@@ -2605,7 +2623,8 @@ uint8 ICACHE_FLASH_ATTR supla_esp_mqtt_parser_set_color(
   char *tn = (char *)topic_name;
 
   if (memcmp(tn, supla_esp_mqtt_vars->prefix,
-             supla_esp_mqtt_vars->prefix_len) == 0) {
+             supla_esp_mqtt_vars->prefix_len) == 0 &&
+      tn[supla_esp_mqtt_vars->prefix_len] == '/') {
     tn += supla_esp_mqtt_vars->prefix_len + 1;
     topic_name_size -= supla_esp_mqtt_vars->prefix_len + 1;
   } else {
